@@ -34,9 +34,10 @@ def _cell(rc, values, count=None):
     return out
 
 
-def eflr(set_type, columns, rows):
-    """columns: [(label, rc)]; rows: [(obname tuple, [list of values per column])]."""
-    out = bytes([E.ROLE['SET'] | 0x10]) + E.ident(set_type)
+def eflr(set_type, columns, rows, role='SET', name=None):
+    """columns: [(label, rc)]; rows: [(obname tuple, [list of values per column])]; role: SET, RSET (replacement set) or RDSET (redundant
+    set); name: the optional set name."""
+    out = bytes([E.ROLE[role] | 0x10 | (0x08 if name is not None else 0)]) + E.ident(set_type) + (E.ident(name) if name is not None else b'')
     for label, rc in columns:
         out += _attr(label, rc)
     for name, cells in rows:
@@ -88,6 +89,24 @@ def record(is_eflr, rtype, payload, encrypted=False, new_vr=False):
         pad = 2           # always exercise 'encrypted + padding attribute': the pad bytes stay part of the (opaque) record body
     seg['pad'] = pad
     return (is_eflr, rtype, [seg])
+
+
+def record_split(is_eflr, rtype, payload, first, trailing=False, checksum=False, new_vr=False, second_vr=False):
+    """One logical record in two segments: the first carries payload[:first] (first even, >= 12 so that the segment has the minimum length
+    of 16 with no padding), the second the rest.  trailing / checksum put a trailing length / a checksum on BOTH segments (RP66V1 2.2.2.1:
+    every segment has its own trailer).  The second segment follows in the same visible record unless second_vr."""
+    assert first % 2 == 0 and 12 <= first <= len(payload)
+    s0 = dict(payload=payload[:first], pad=0, checksum=checksum, trailing=trailing, encrypted=False, new_vr=new_vr)
+    rest = payload[first:]
+    extra = (2 if trailing else 0) + (2 if checksum else 0)
+    n = 4 + len(rest) + extra
+    pad = 0
+    if n < 16:
+        pad = 16 - n
+    if (n + pad) % 2:
+        pad += 1
+    s1 = dict(payload=rest, pad=pad, checksum=checksum, trailing=trailing, encrypted=False, new_vr=second_vr)
+    return (is_eflr, rtype, [s0, s1])
 
 
 def build(records):
